@@ -303,6 +303,76 @@ def execute_interleaved(case, ctx):
     ctx.sample({"env": name, "cfg_a": A["cfg"], "cfg_b": Bc["cfg"], "order": order, "steps": [r["t"] for r in runs]})
 
 
+# --------------------------------------------------------------------------- instance storage is never written
+def execute_no_alias(case, ctx):
+    """Slices of one big instance batch (views that share its storage - what indexing a dataset td gives) are handed to
+    reset WITHOUT cloning and stepped WITHOUT cloning (as the decoding loops do), twice over overlapping ranges: no
+    episode may write into the instance tensors it was given, and the later episodes must equal runs on private copies."""
+    name = case["env"]
+    spec = SPECS[name]
+    sl = spec.slice_of(case["cfg"])
+    env = ctx.guard(spec.env, case["cfg"], what=f"build_env|{name}")
+    big = ctx.guard(spec.instance, case, what=f"instance|{name}")
+    Bn = big.batch_size[0]
+    ctx.event(f"env:{name}")
+    ref = big.clone()
+    held = {k: big[k] for k in big.keys()}  # the very tensors of the instance batch
+    insts = [py_instance(name, ref[b]) for b in range(Bn)]
+    cap = max(spec.bound(case["cfg"], insts[b]) for b in range(Bn)) + 3
+    rows = case["rows"]
+    cut = max(1, Bn // 2)
+    ranges = [(0, cut), (cut, Bn), (0, Bn), (0, cut)] if Bn >= 2 else [(0, 1), (0, 1)]
+    from ..episode import pick_actions
+    for ri, (lo, hi) in enumerate(ranges):
+        if hi <= lo:
+            continue
+        n = hi - lo
+        modes = [rows[(lo + i) % len(rows)]["mode"] for i in range(n)]
+        streams = [rows[(lo + i) % len(rows)]["stream"] for i in range(n)]
+        want = ctx.guard(run_episode, spec.build(case["cfg"]) if name == "ffsp" else env, ref[lo:hi], modes, streams, cap, False,
+                         what=f"solo_episode|{name}|{sl}")
+        if want.dead_end is not None or want.cap_hit or want.T == 0:
+            ctx.event("aborted_episode(C02 territory)")
+            return
+
+        def run_view():
+            td = env.reset(big[lo:hi])  # a view of the big batch, no clone
+            masks, acts = [], []
+            done = row_done(td["done"], n)
+            t = 0
+            while not bool(done.all()) and t < cap:
+                mask = flat_mask(td["action_mask"], n)
+                a = pick_actions(mask, modes, streams, t)
+                masks.append(mask.clone())
+                if bool((a < 0).any()):
+                    break
+                acts.append(a.clone())
+                td.set("action", a)
+                td = env.step(td)["next"]  # no clone either
+                done = row_done(td["done"], n)
+                t += 1
+            return masks, acts, bool(done.all())
+        masks, acts, fin = ctx.guard(run_view, what=f"episode_on_view|{name}|{sl}")
+        det = {"range": [lo, hi], "pass": ri, "instances": insts[lo:hi]}
+        for k, v in held.items():
+            same_ = (v.shape == ref[k].shape) and bool(torch.equal(v, ref[k]) or (v.dtype.is_floating_point and torch.equal(
+                torch.nan_to_num(v), torch.nan_to_num(ref[k]))))
+            if not same_:
+                ctx.violation(f"{name}|{sl}|instance_storage_modified|{k}",
+                              f"after an episode on rows {lo}:{hi} of the instance batch (given to reset as a view) the instance tensor "
+                              f"'{k}' has changed: episodes must not write into the data they are given", det)
+                return
+        ok = fin and len(acts) == want.T and all(torch.equal(a, b) for a, b in zip(acts, want.actions)) \
+            and all(torch.equal(a, b) for a, b in zip(masks, want.masks))
+        if not ok:
+            ctx.violation(f"{name}|{sl}|episode_on_view_differs|pass{min(ri, 2)}",
+                          f"episode on rows {lo}:{hi} given as a view (pass {ri}) differs from the run on a private copy", det)
+            return
+    if Bn >= 2:
+        ctx.nontriv()
+    ctx.sample({"env": name, "cfg": case["cfg"], "B": Bn, "ranges": ranges})
+
+
 def preimport():
     from ..eda import data_dir
     data_dir()
@@ -313,5 +383,8 @@ SUBS = [
         budget={"quick": 3500, "thorough": 40000}, shards=16),
     Sub("copies", execute_copies_wrap, strategy=copies_cases, budget={"quick": 800, "thorough": 10000}, shards=16),
     Sub("interleaved", execute_interleaved, strategy=interleave_cases, budget={"quick": 960, "thorough": 12000}, shards=16),
+    Sub("no_alias", execute_no_alias, strategy=lambda tier: episode_cases(tier, ALL_ENVS).map(
+        lambda c: {k: v for k, v in c.items() if k not in ("stepping", "env_shape")}),
+        budget={"quick": 960, "thorough": 12000}, shards=16),
 ]
 TIME_CAP = {"quick": 400, "thorough": 3000}
